@@ -446,6 +446,10 @@ func parseValues(out string) map[string]string {
 		return nil
 	}
 	body := strings.TrimSpace(out[i+1:])
+	// the first answer is the value of the goal (model validation), the inputs follow
+	for _, gv := range []string{"((goal!chk false))", "((goal!chk true))"} {
+		body = strings.TrimSpace(strings.TrimPrefix(body, gv))
+	}
 	if !strings.HasPrefix(body, "((") {
 		return nil
 	}
